@@ -20,6 +20,14 @@ var (
 	callerCache = map[uintptr]string{}
 )
 
+// NoPoint, if set, names lock call sites that are NOT scheduling points (pure
+// bookkeeping critical sections that never contain a point themselves, so the
+// lock is always free when a controlled goroutine reaches them). It is given
+// the calling function's name, e.g. "server.(*SyncHandler).setStatusf".
+var NoPoint func(caller string) bool
+
+func pointHere(c string) bool { return NoPoint == nil || !NoPoint(c) }
+
 // caller names the function that called Lock/RLock (cached per pc).
 func caller() string {
 	var pcs [1]uintptr
@@ -62,7 +70,9 @@ type Mutex struct {
 
 func (m *Mutex) Lock() {
 	if s := active(); s != nil {
-		s.point(&lockWait{m: m}, "Lock:"+caller())
+		if c := caller(); pointHere(c) {
+			s.point(&lockWait{m: m}, "Lock:"+c)
+		}
 	}
 	m.mu.Lock()
 	m.held = true
@@ -96,7 +106,9 @@ type RWMutex struct {
 
 func (m *RWMutex) Lock() {
 	if s := active(); s != nil {
-		s.point(&lockWait{rw: m, write: true}, "Lock:"+caller())
+		if c := caller(); pointHere(c) {
+			s.point(&lockWait{rw: m, write: true}, "Lock:"+c)
+		}
 	}
 	m.mu.Lock()
 	m.cmu.Lock()
@@ -113,7 +125,9 @@ func (m *RWMutex) Unlock() {
 
 func (m *RWMutex) RLock() {
 	if s := active(); s != nil {
-		s.point(&lockWait{rw: m}, "RLock:"+caller())
+		if c := caller(); pointHere(c) {
+			s.point(&lockWait{rw: m}, "RLock:"+c)
+		}
 	}
 	m.mu.RLock()
 	m.cmu.Lock()
